@@ -232,8 +232,17 @@ def runnable_model(rng, dtype=torch.float64, allow_conv=True, unsupported=True, 
             layers.append(nn.Tanh())
             if H < 3 or W < 3:
                 break
-        layers.append(nn.Flatten())
-        feat = c * H * W
+        if rng.random() < 0.35:
+            # resolution-free head: the batches of one run may then differ in height and width
+            layers.append(nn.AdaptiveAvgPool2d(1))
+            layers.append(nn.Flatten())
+            feat = c
+            in_shape = Shape(in_shape)
+            in_shape.var_res = True
+            info['desc'].append('gap')
+        else:
+            layers.append(nn.Flatten())
+            feat = c * H * W
         nd = False
     else:
         feat = rng.randint(1, hi)
@@ -270,7 +279,15 @@ def init_params(model, gen, scale=0.7):
                 m.weight.add_(1.0)
 
 
+class Shape(tuple):
+    """input shape; var_res=True marks a model whose batches may vary in spatial size from call to call."""
+    var_res = False
+
+
 def make_batch(gen, batch, in_shape, dtype):
+    if getattr(in_shape, 'var_res', False):
+        dh, dw = (int(v) for v in torch.randint(0, 4, (2,), generator=gen))
+        in_shape = (in_shape[0], in_shape[1] + dh, in_shape[2] + dw)
     return (torch.randn(batch, *in_shape, generator=gen, dtype=torch.float64)).to(dtype)
 
 
